@@ -599,6 +599,64 @@ Proof.
 Qed.
 
 (* ------------------------------------------------------------------ *)
+(* 9b. refresh keeps the binding and reports it truthfully *)
+(* refresh: a bound grant stays bound, an unbound one stays unbound, and the confirmation of the
+   refreshed token is the old one or the thumbprint of the key / certificate of this very request *)
+Lemma refresh_cnf_lemma w n now r st st' t :
+  (forall p k, b_dpop (t_bind r) = Some p -> dp_jwk p = JwkPublic k -> k <> 0) ->
+  run_seq (refresh_grant w n now r) st = (st', OTokens t) ->
+  exists g, find (fun g => ideq (g_refresh g) (t_refresh r)) (st_gsess st) = Some g /\
+    ((g_jkt g <> 0 -> cf_dpop_enabled (w_cfg w) = true) ->
+       (g_jkt g <> 0 <-> tr_jkt t <> 0) /\
+       (tr_jkt t <> 0 -> tr_jkt t = g_jkt g \/
+          exists p k, b_dpop (t_bind r) = Some p /\ dp_jwk p = JwkPublic k /\ dp_signer p = k /\
+                      validate_jwt jwt_lifetime jwt_leeway p 0 0 = None /\ tr_jkt t = k)) /\
+    (g_x5t g <> 0 <-> tr_x5t t <> 0) /\
+    (tr_x5t t <> 0 -> tr_x5t t = g_x5t g \/ tr_x5t t = b_cert (t_bind r)) /\
+    tr_dpop t = negb (is_nil (tr_jkt t)) /\
+    exists g', In g' (st_gsess st') /\ g_id g' = g_id g /\ g_jkt g' = tr_jkt t /\ g_x5t g' = tr_x5t t.
+Proof.
+  intros Hwf H. unfold refresh_grant in H.
+  destruct (negb (has_grant GRefreshToken (cf_grants (w_cfg w)))); [discriminate|].
+  destruct (is_nil (t_refresh r)); [discriminate|].
+  rewrite run_seq_bind, run_authenticated in H.
+  destruct (authn w st (t_cred r)) as [c|] eqn:Ea; [|discriminate].
+  cbn in H. destruct (find (fun g => ideq (g_refresh g) (t_refresh r)) (st_gsess st)) as [g|] eqn:Ef; cbn in H; [|discriminate].
+  destruct (negb (has_grant GRefreshToken (c_grants c))); [discriminate|].
+  destruct (negb (ideq (c_id c) (g_client g))); [discriminate|].
+  destruct (geb now (g_expires g)); [discriminate|].
+  destruct (refresh_binding (w_cfg w) c (t_bind r) g) eqn:Eb; [discriminate|].
+  destruct (negb (contains_all_scopes (g_granted g) (t_scope r))); [discriminate|].
+  destruct (hg_result (t_hg r)); [discriminate|].
+  destruct (make_token n c GRefreshToken) as [tv tid].
+  cbn in H. inversion H; subst st' t; clear H. cbn.
+  exists g. split; [reflexivity|].
+  apply refresh_binding_spec in Eb. destruct Eb as [Hpub Hconf].
+  split; [|split; [|split; [|split]]].
+  - intros Hen. destruct (b_dpop (t_bind r)) as [p|] eqn:Ep.
+    + destruct (is_nil (g_jkt g)) eqn:Ej.
+      * apply is_nil_true in Ej. split; [split; intros Hn; congruence|intros Hn; congruence].
+      * apply is_nil_false in Ej.
+        assert (Hv : validate_jwt jwt_lifetime jwt_leeway p 0 0 = None).
+        { destruct (c_public c) eqn:Epub.
+          - destruct (Hpub eq_refl) as [Hj _]. destruct (Hj Ej) as (p' & Hp' & Hv'). rewrite Ep in Hp'; injection Hp' as <-.
+            eapply accepted_weaken; eauto.
+          - destruct (Hconf eq_refl) as [Hj _]. destruct (Hj (Hen Ej) Ej) as (p' & Hp' & Hv'). rewrite Ep in Hp'; injection Hp' as <-. exact Hv'. }
+        destruct (accepted_key _ _ _ _ _ Hv) as (k & H1 & H2 & H3 & _).
+        assert (Hk : k <> 0) by (eapply Hwf; eauto).
+        split; [split; intros _; [rewrite H3; exact Hk|exact Ej]|].
+        intros _. right. exists p, k. repeat split; auto.
+    + split; [tauto|]. intros _. left; reflexivity.
+  - destruct (is_nil (g_x5t g)) eqn:Ex; cbn.
+    + tauto.
+    + destruct (is_nil (b_cert (t_bind r))) eqn:Ec; cbn; [tauto|].
+      apply is_nil_false in Ex, Ec. tauto.
+  - destruct (negb (is_nil (g_x5t g)) && negb (is_nil (b_cert (t_bind r))))%bool; auto.
+  - reflexivity.
+  - eexists. split; [left; reflexivity|]. cbn. auto.
+Qed.
+
+(* ------------------------------------------------------------------ *)
 (* 10. witnesses for the Examples of Props/C06.v                        *)
 Definition ex_key : id := 7001.
 Definition ex_key2 : id := 7002.
